@@ -115,12 +115,43 @@ def codegen_check(pid, isa, kani=None, kani_s=0.0):
     run_items(chk, items,
               rule="shapes enumerated exhaustively inside the stated windows/arity/kind bounds (gen/shapes.py); every shape is a "
                    "distinct emitted code fragment; per shape the solver decides fault-freedom, Spec and I' for all data")
+    whole_program(chk, {'x86_64': 'x86', 'aarch64': 'aarch64', 'rv64': 'rv64'}[isa])
     if kani is not None:
         chk.coverage['kani'] = {'harnesses': kani_samples, 'seconds': round(kani_s, 1),
                                 'claim': 'all 2^64 literals x every register / every spill slot: value exact, operands in range'}
         chk.coverage['obligations'] += len(kani)
         chk.coverage['discharged'] += len(kani_samples)
     return chk.finish()
+
+
+def whole_program(chk, key):
+    """composition of the per-statement steps: AxM(positional) on the linearised program x symbolic execution of the whole
+    printed routine (labels across definitions, jump tables, prologue / epilogue), main's parameters symbolic"""
+    import tv
+    items = [dict(it, pairs=[('linearized', key)]) for it in tv.corpus() + tv.gen_items(fw.tier(), 'sequenced')]
+    res = fw.pmap(tv.stage_item, items, order_seed=fw.seed())
+    progs = pairs = cut = skipped = 0
+    for r in res:
+        if 'error' in r and 'name' not in r:
+            chk.inconc(f"whole-program machinery error: {r['error']}")
+            continue
+        for k, v in r.get('results', {}).items():
+            if 'skipped' in v:
+                skipped += 1
+                continue
+            progs += 1
+            pairs += v['pairs']
+            cut += v['cut']
+            for viol in v['violations']:
+                if viol.get('reproduced'):
+                    chk.report(f"{key}/program/{viol['kind']}", f"{r['name']} {k}: {viol['kind']} {viol.get('note') or ''} args={viol['args']}"[:300],
+                               {'program': r['name'], 'src': r.get('src'), 'violation': viol})
+                else:
+                    chk.inconc(f"{r['name']} {k}: counterexample {viol['args']} did not reproduce concretely")
+            for w in v['inconclusive']:
+                chk.inconc(f"{r['name']} {k}: {w}")
+    chk.coverage['whole_program'] = {'programs': progs, 'path_pairs_decided': pairs, 'paths_cut_by_budget': cut,
+                                     'programs_without_code_for_this_back_end': skipped}
 
 
 def c06():
